@@ -116,7 +116,7 @@ def parseTy (C : TySyms) (ts : List Tok) : Option Ty :=
   | _ => none
 
 /-- the symbols of the type syntax are pairwise different, and a `fun` with two arguments is written `fn` -/
-def TySyms.ok (C : TySyms) : Prop :=
+abbrev TySyms.ok (C : TySyms) : Prop :=
   C.tick ≠ C.qtick ∧ C.comma ≠ C.arrowA ∧ C.comma ≠ C.arrowU
 
 end Holpy.C07
